@@ -18,6 +18,7 @@ import (
 	"crypto/ed25519"
 	"encoding/base64"
 	"encoding/json"
+	"fmt"
 	"sort"
 	"strconv"
 	"strings"
@@ -383,6 +384,205 @@ func (r *Rng) mutateValue(v *JV, depth int) {
 	}
 }
 
+
+// ---------------------------------------------------------------- texts readers disagree on
+//
+// signScan finds, in a valid JSON text whose top level is an object, every string token and every object,
+// each tagged with the top-level member it lies in ("" = the top-level object itself).
+
+type signStrTok struct {
+	start, end int // the token with its quotes: text[start:end]
+	top        string
+	isKey      bool
+	topKey     bool // a member name of the top-level object
+}
+type signObjTok struct {
+	open, close int // positions of '{' and '}'
+	top         string
+	keys        [][2]int // raw member names (with quotes)
+}
+type signScan struct {
+	t    []byte
+	strs []signStrTok
+	objs []signObjTok
+}
+
+func (s *signScan) ws(i int) int {
+	for i < len(s.t) && (s.t[i] == ' ' || s.t[i] == '\t' || s.t[i] == '\n' || s.t[i] == '\r') {
+		i++
+	}
+	return i
+}
+func (s *signScan) str(i int) int { // i at the opening quote; returns the index after the closing quote
+	i++
+	for s.t[i] != '"' {
+		if s.t[i] == '\\' {
+			i++
+		}
+		i++
+	}
+	return i + 1
+}
+func (s *signScan) value(i int, top string, depth int) int {
+	i = s.ws(i)
+	switch s.t[i] {
+	case '"':
+		e := s.str(i)
+		s.strs = append(s.strs, signStrTok{i, e, top, false, false})
+		return e
+	case '{':
+		idx := len(s.objs)
+		s.objs = append(s.objs, signObjTok{open: i, top: top})
+		i = s.ws(i + 1)
+		for s.t[i] != '}' {
+			if s.t[i] == ',' {
+				i = s.ws(i + 1)
+			}
+			ke := s.str(i)
+			mtop := top
+			if depth == 0 {
+				var name string
+				_ = json.Unmarshal(s.t[i:ke], &name)
+				mtop = name
+			}
+			s.strs = append(s.strs, signStrTok{i, ke, mtop, true, depth == 0})
+			s.objs[idx].keys = append(s.objs[idx].keys, [2]int{i, ke})
+			i = s.ws(ke) + 1 // ':'
+			i = s.ws(s.value(i, mtop, depth+1))
+		}
+		s.objs[idx].close = i
+		return i + 1
+	case '[':
+		i = s.ws(i + 1)
+		for s.t[i] != ']' {
+			if s.t[i] == ',' {
+				i++
+			}
+			i = s.ws(s.value(i, top, depth+1))
+		}
+		return i + 1
+	}
+	for i < len(s.t) && !strings.ContainsRune(",]} \t\r\n", rune(s.t[i])) {
+		i++
+	}
+	return i
+}
+
+func splice(t []byte, at int, ins string, del int) []byte {
+	out := append([]byte{}, t[:at]...)
+	out = append(out, ins...)
+	return append(out, t[at+del:]...)
+}
+
+func signExcluded(top string) bool { return top == "signatures" || top == "unsigned" }
+
+var loneSurrogates = []string{`\ud800`, `\udc00`, `\uDBFF`, `\udfff`, `\ud83d`, `\uD83DA`, `\ude00\ud83d`, `\ud800\ud800`}
+
+// signAmbiguate rewrites a valid text into one its readers disagree on. kind: 0 lone surrogate escape in a
+// string / member name, 1 duplicate member (first or last), 2 invalid UTF-8 in a string / member name.
+// signedPart selects where: inside the signed members (true) or inside `signatures` / `unsigned`, or as a
+// second `signatures` / `unsigned` member (false).  Returns nil when the text offers no such place.
+func (r *Rng) signAmbiguate(text []byte, kind int, signedPart bool) ([]byte, string) {
+	if len(text) == 0 || bytes.IndexByte(text, '{') < 0 {
+		return nil, ""
+	}
+	sc := &signScan{t: text}
+	func() {
+		defer func() { _ = recover() }()
+		sc.value(0, "", 0)
+	}()
+	if len(sc.objs) == 0 || sc.objs[0].close == 0 {
+		return nil, ""
+	}
+	where := "signed"
+	if !signedPart {
+		where = "excluded"
+	}
+	switch kind {
+	case 0, 2:
+		var cands []signStrTok
+		for _, st := range sc.strs {
+			if signExcluded(st.top) != signedPart && !(st.topKey && signExcluded(st.top)) {
+				cands = append(cands, st)
+			}
+		}
+		if len(cands) == 0 {
+			return nil, ""
+		}
+		st := Pick(r, cands)
+		at := st.start + 1
+		if r.Bool() {
+			at = st.end - 1
+		}
+		what := "value"
+		if st.isKey {
+			what = "name"
+		}
+		if kind == 0 {
+			return splice(text, at, Pick(r, loneSurrogates), 0), "surrogate-" + what + "-" + where
+		}
+		// invalid UTF-8: where the string holds U+FFFD write a byte every Go reader turns into U+FFFD, else insert one
+		if i := bytes.Index(text[st.start:st.end], []byte("\xef\xbf\xbd")); i >= 0 {
+			return splice(text, st.start+i, Pick(r, []string{"\xff", "\xc0", "\xed\xa0\x80", "\x80"}), 3), "utf8-fffd-" + what + "-" + where
+		}
+		return splice(text, at, Pick(r, []string{"\xff", "\xc3", "\xed\xa0\x80", "\xc0\xaf"}), 0), "utf8-" + what + "-" + where
+	default:
+		var cands []signObjTok
+		for _, ob := range sc.objs {
+			if len(ob.keys) > 0 && (signExcluded(ob.top) != signedPart) {
+				cands = append(cands, ob)
+			}
+		}
+		top := sc.objs[0]
+		if !signedPart && (len(cands) == 0 || r.Chance(50)) {
+			// a second `signatures` / `unsigned` member of the top-level object
+			m := Pick(r, []string{`"signatures":{}`, `"unsigned":{}`, `"signatures":null`, `"unsigned":{"age":1}`, `"signatures":{}`})
+			present := false
+			for _, k := range top.keys {
+				var name string
+				_ = json.Unmarshal(text[k[0]:k[1]], &name)
+				present = present || strings.HasPrefix(m, `"`+name+`"`)
+			}
+			if !present {
+				return splice(text, top.open+1, m+","+m+",", 0), "dup-excluded-member-twice"
+			}
+			if r.Bool() {
+				return splice(text, top.open+1, m+",", 0), "dup-excluded-member-first"
+			}
+			return splice(text, top.close, ","+m, 0), "dup-excluded-member-last"
+		}
+		if len(cands) == 0 {
+			return nil, ""
+		}
+		ob := Pick(r, cands)
+		var keys [][2]int
+		for _, k := range ob.keys {
+			var name string
+			_ = json.Unmarshal(text[k[0]:k[1]], &name)
+			if ob.open != top.open || signExcluded(name) != signedPart {
+				keys = append(keys, k)
+			}
+		}
+		if len(keys) == 0 {
+			return nil, ""
+		}
+		k := Pick(r, keys)
+		raw := string(text[k[0]:k[1]])
+		if len(raw) > 2 && raw[1] >= 'a' && raw[1] <= 'z' && r.Chance(30) {
+			raw = `"` + fmt.Sprintf(`\u%04x`, raw[1]) + raw[2:] // the same name in another spelling
+		}
+		m := raw + ":" + Pick(r, []string{`"EVIL"`, `0`, `null`, `{}`, `[1]`})
+		depth := "nested"
+		if ob.open == top.open {
+			depth = "top"
+		}
+		if r.Bool() {
+			return splice(text, ob.open+1, m+",", 0), "dup-first-" + depth + "-" + where
+		}
+		return splice(text, ob.close, ","+m, 0), "dup-last-" + depth + "-" + where
+	}
+}
+
 type signFact struct {
 	sig, pk, payload []byte
 }
@@ -446,7 +646,8 @@ func genVerifyCase(o *Out, r *Rng) {
 	expect := "ok"
 	label := "intact"
 	style := Style{}
-	switch k := r.Intn(22); k {
+	amb, ambSigned := -1, true
+	switch k := r.Intn(27); k {
 	case 0:
 	case 1, 2: // re-serialised
 		label = "reserialised"
@@ -607,8 +808,31 @@ func genVerifyCase(o *Out, r *Rng) {
 			expect = "rej"
 		}
 		v.get("signatures").get(name).set(kid, jvStr(s))
+	case 22, 23, 24: // the signed members rewritten so that readers disagree on them: a lone surrogate escape (CompactJSON
+		// drops it, the decoders read U+FFFD), a duplicate member (encoding/json keeps the last, gjson / sjson the first),
+		// invalid UTF-8 (encoding/json rewrites member names to U+FFFD)
+		amb, expect = k-22, "rej"
+		if k == 24 && r.Bool() {
+			amb = 1
+		}
+	case 25, 26: // the same inside `signatures` / `unsigned`, or a second `signatures` / `unsigned` member
+		amb, ambSigned, expect = r.Intn(3), false, "any"
+		if r.Chance(60) {
+			v.set("unsigned", r.GenObject(1, true))
+		}
 	}
 	text := r.RenderText(v, style)
+	if amb >= 0 {
+		if r.Chance(40) {
+			text = r.RenderText(v, Style{Ws: 20, Escape: 10, Shuffle: true})
+		}
+		t2, what := r.signAmbiguate(text, amb, ambSigned)
+		if t2 == nil {
+			o.Count("verify.ambiguous-not-applicable")
+			return
+		}
+		text, label = t2, "ambiguous-"+what
+	}
 	args := []string{label, hx(text), hx([]byte(vname)), hx([]byte(vkid)), hx(vpk), factsArg(facts), expect}
 	res := o.Do("verify", args...)
 	o.Do("accept", args...)
@@ -636,6 +860,12 @@ func genSignCase(o *Out, r *Rng, i int) {
 		label = "casevar-" + label[:i] + label[i+len("casevar-"):]
 	}
 	text := r.RenderText(v, r.RandStyle())
+	if r.Chance(12) {
+		// a text readers disagree on: signing it would bind nothing definite
+		if t2, what := r.signAmbiguate(text, r.Intn(3), r.Chance(75)); t2 != nil {
+			text, label = t2, "ambiguous-"+what
+		}
+	}
 	res := o.Do("sign", label, hx(text), hx([]byte(name)), hx([]byte(kid)), strconv.Itoa(keyIdx))
 	cls := res
 	if j := strings.IndexByte(res, ':'); j >= 0 {
@@ -691,6 +921,11 @@ func genSign(o *Out, tier string, r *Rng) {
 		{"corner", `{"a":"<>&\u2028"}`}, {"corner", `{"a":-0,"b":1.0,"c":1e5}`}, {"corner", `{"a":1,"signatures":{"x":{"k":"AAAA"}}}`},
 		{"corner", `{"a":1,"unsigned":{"x":1}}`}, {"corner", `{"a":1,"signatures":{"srv":{"k":"AA\nAA"}}}`},
 		{"corner", `{"a":1,"signatures":{}}`}, {"corner", `{"a":1,"signatures":{"srv":{}}}`},
+		{"ambiguous-corner", `{"a":"a\ud800b"}`}, {"ambiguous-corner", `{"a":1,"a":2}`}, {"ambiguous-corner", `{"n":{"x":1,"x":2}}`},
+		{"ambiguous-corner", `{"a":1,"signatures":{},"signatures":{}}`}, {"ambiguous-corner", `{"a":1,"unsigned":{},"unsigned":{"x":1}}`},
+		{"ambiguous-corner", "{\"a\":\"\xff\"}"}, {"ambiguous-corner", "{\"\xff\":1}"}, {"ambiguous-corner", `{"a\udc00":1}`},
+		{"ambiguous-corner", `{"a":[{"k":1,"\u006b":2}]}`}, {"ambiguous-corner", `{"a":1,"unsigned":{"x":"\ud800"}}`},
+		{"corner", `{"a":"\ud83d\ude00"}`}, {"corner", `{"\ud83d\ude00":"😀"}`},
 	} {
 		label, t := c[0], c[1]
 		o.Do("sign", label, hx([]byte(t)), hx([]byte("srv")), hx([]byte("ed25519:1")), "0")
